@@ -94,5 +94,18 @@ theorem applyAux_applyAux (s r : Term) (d e : Nat) (hd : 1 ≤ d) (he : d ≤ e)
   | abs b ih => simp only [applyAux]; rw [ih (d+1) (e+1) (by omega) (by omega)]; congr 3; omega
   | app l r ihl ihr => simp [applyAux, ihl _ _ hd he, ihr _ _ hd he]
 
+/-- `shiftFV` commutes with contraction -/
+theorem shiftFV_contract (a o : Nat) (b r : Term) :
+    shiftFV a o (contract b r) = contract (shiftFV a (o+1) b) (shiftFV a o r) := by
+  have := shiftFV_applyAux_ge a o 1 (by omega) (by omega) r b
+  simpa [contract] using this
+
+/-- the substitution lemma, specialised to a contraction -/
+theorem applyAux_contract (s : Term) (e : Nat) (he : 1 ≤ e) (b r : Term) :
+    applyAux s e (contract b r) = contract (applyAux s (e+1) b) (applyAux s e r) := by
+  have := applyAux_applyAux s r 1 e (by omega) he b
+  simpa [contract] using this
+
+
 end Term
 end LC
